@@ -282,6 +282,74 @@ fn run_forged(ctx: &mut Ctx) {
     }
 }
 
+/// Populations far above the small scope: whatever depends on a SIZE THRESHOLD inside the library (chunked or unrolled
+/// loops, "shrink when larger than N" heuristics, growth steps) is out of reach of bounded histories. One archetype
+/// (index 0: U, K, T) is taken to n entities for several n around and above 4096.
+fn run_scale(ctx: &mut Ctx) {
+    for n in [4097usize, 5000, 9001] {
+        ctx.arch = n;
+        let mut w = MW::new();
+        let mut hs: Vec<EntityAny> = Vec::with_capacity(n);
+        for r in 0..n {
+            hs.push(create_in(&mut w, 0, r as u32 + 1));
+        }
+        chk!(ctx, lens(&w)[0] == n && lens(&w)[1..].iter().all(|l| *l == 0), "C12", "len-wrong", "after {} creations len is {}", n, lens(&w)[0]);
+        let distinct: std::collections::BTreeSet<(u32, u32)> = hs.iter().map(|h| h.raw()).collect();
+        chk!(ctx, distinct.len() == n, "C08", "handle-reissued", "{} creations returned {} distinct handles", n, distinct.len());
+        for (r, h) in hs.iter().enumerate() {
+            let f = ecs_find!(w, *h, |k: &K, t: &T| (k.0, t.0));
+            chk!(ctx, f == Some((r as u32 + 1, (r as u32 + 1) ^ 0x5555)), "C01,C02", "find-at-scale", "entity {} of {}: ecs_find! = {:?}", r, n, f);
+        }
+        let (mut cnt, mut sum) = (0usize, 0u64);
+        ecs_iter!(w, |k: &K| { cnt += 1; sum += k.0 as u64; });
+        chk!(ctx, cnt == n && sum == (n as u64) * (n as u64 + 1) / 2, "C06", "iteration-differs", "ecs_iter! over {} entities: {} items, value sum {}", n, cnt, sum);
+        {
+            let a = w.archetype_mut::<M000>();
+            let plain: Vec<u32> = { let mut v = Vec::new(); let mut it = a.iter(); while let Some((_, _, k, _)) = it.next() { v.push(k.0); } v };
+            let folded: Vec<u32> = a.iter().fold(Vec::new(), |mut acc, (_, _, k, _)| { acc.push(k.0); acc });
+            let mut fe: Vec<u32> = Vec::new();
+            a.iter_mut().for_each(|(_, _, k, _)| fe.push(k.0));
+            chk!(ctx, plain.len() == n && folded == plain && fe == plain, "C06", "derived-iterator-method-disagrees", "Archetype::iter() over {} rows: next() yields {}, fold {}, iter_mut().for_each {} rows (or in another order)", n, plain.len(), folded.len(), fe.len());
+            for k in [0usize, 1, 4095, 4096, n - 1, n] {
+                let x = a.iter().nth(k).map(|(_, _, kk, _)| kk.0);
+                chk!(ctx, x == plain.get(k).cloned(), "C06", "derived-iterator-method-disagrees", "Archetype::iter().nth({}) over {} rows = {:?}, the plain pass has {:?}", k, n, x, plain.get(k));
+            }
+            chk!(ctx, a.entities().len() == n && a.get_slice::<K>().len() == n && a.borrow_slice::<T>().len() == n, "C06", "slice-length", "slices of an archetype with {} entities have another length", n);
+        }
+        check_events(ctx, &w, &hs, &[]);
+        // destroy all but the last three through the dynamic handle
+        let gone: Vec<EntityAny> = hs[..n - 3].to_vec();
+        for h in &gone {
+            let r = w.destroy(*h);
+            chk!(ctx, r == Some(()), "C01", "destroy-of-live-entity-failed", "world.destroy({:?}) = {:?} at scale {}", h, r, n);
+        }
+        chk!(ctx, lens(&w)[0] == 3 && gone.iter().step_by(97).all(|h| !w.contains(*h)) && hs[n - 3..].iter().all(|h| w.contains(*h)), "C01,C12", "state-after-mass-destroy", "after destroying {} of {} entities: len {}", n - 3, n, lens(&w)[0]);
+        check_events(ctx, &w, &hs, &gone);
+        clear_events(&mut w);
+        check_events(ctx, &w, &[], &[]);
+        // only destroyed events pending, then a second clear
+        let two: Vec<EntityAny> = hs[n - 3..n - 1].to_vec();
+        for h in &two {
+            w.destroy(*h);
+        }
+        check_events(ctx, &w, &[], &two);
+        clear_events(&mut w);
+        check_events(ctx, &w, &[], &[]);
+        // refill to n: no handle of the first generation comes back, no growth is needed
+        let cap = w.archetype::<M000>().capacity();
+        let mut again: Vec<EntityAny> = Vec::with_capacity(n);
+        for r in 0..n - 1 {
+            again.push(create_in(&mut w, 0, 100_000 + r as u32));
+        }
+        chk!(ctx, lens(&w)[0] == n && w.archetype::<M000>().capacity() == cap, "C12", "refill-to-capacity-failed", "refilling to {} entities: len {}, capacity {} -> {}", n, lens(&w)[0], cap, w.archetype::<M000>().capacity());
+        chk!(ctx, again.iter().all(|h| !distinct.contains(&h.raw())), "C08", "handle-reissued", "a refill at scale {} returned a handle that had been issued before", n);
+        check_events(ctx, &w, &again, &[]);
+        let c = w.clone();
+        chk!(ctx, lens(&c) == lens(&w) && again.iter().step_by(61).all(|h| c.contains(*h)), "C13", "clone-differs", "clone of a world with {} entities has len {:?}", n, lens(&c)[0]);
+        check_events(ctx, &c, &again, &[]);
+    }
+}
+
 fn arg(args: &[String], name: &str) -> Option<String> {
     args.iter().position(|a| a == name).and_then(|i| args.get(i + 1).cloned())
 }
@@ -316,6 +384,7 @@ fn phase(ctx: &mut Ctx, name: &'static str, only: Option<(&str, usize)>) {
             run_population(ctx, &[]);
         }
         "forged" => run_forged(ctx),
+        "scale" => run_scale(ctx),
         _ => unreachable!(),
     }
 }
@@ -336,7 +405,7 @@ fn main() {
         std::panic::set_hook(Box::new(|_| {}));
     }
     let mut phases = 0;
-    for p in ["none", "single", "first-and-last", "every", "forged"] {
+    for p in ["none", "single", "first-and-last", "every", "forged", "scale"] {
         let r = catch_unwind(AssertUnwindSafe(|| phase(&mut ctx, p, only.as_ref().map(|(a, b)| (a.as_str(), *b)))));
         if let Err(pl) = r {
             let m = pl.downcast_ref::<&str>().map(|s| s.to_string()).or_else(|| pl.downcast_ref::<String>().cloned()).unwrap_or_default();
@@ -349,7 +418,7 @@ fn main() {
         "evaluations": ctx.evals,
         "violations": ctx.found.values().collect::<Vec<_>>(),
         "wall_s": t0.elapsed().as_secs_f64(),
-        "detail": {"archetypes": N, "populations": N + 3, "phases": phases,
+        "detail": {"archetypes": N, "populations": N + 3, "phases": phases, "scale_populations": [4097, 5000, 9001],
                    "samples": [{"phase": "single", "archetype_index": 255}, {"phase": "every", "archetype_index": 0}]},
     });
     match arg(&args, "--out") {
